@@ -204,6 +204,33 @@ def flow(args):
             raw = ps.serialize()
             got = outcome(PSBT.parse, io.BytesIO(raw), "testnet")
             cases.append({"id": "%s.badsig.%s" % (tag, variant), "kind": "load", "bytes": B(raw), "expect": "bad-partial-sig", "accepted": got[0] == "ok", "label": "badsig-" + variant})
+    # a finalised input that still carries a partial signature (what finalised.combine(partially_signed) produces): the partial
+    # signature is checked on load like any other
+    if nsign >= 1:
+        fin = w.clone()
+        for s in range(nsign):
+            fin.sign(w.roots[s])
+        bad_src = PSBT.parse(io.BytesIO(o.serialize()), network="testnet")       # same keys, signatures over a different transaction
+        with contextlib.redirect_stdout(io.StringIO()):
+            fz = outcome(fin.finalize)
+        if fz[0] == "ok" and bad_src.psbt_ins[0].sigs:
+            for variant, src in (("invalid", bad_src),):       # (whether a finalised input may carry VALID partial signatures is not part of the property)
+                ps = PSBT.parse(io.BytesIO(fin.serialize()), network="testnet")
+                good_src = w.clone()
+                for s in range(nsign):
+                    good_src.sign(w.roots[s])
+                take = (src or good_src).psbt_ins[0].sigs
+                sec0 = sorted(take)[0]
+                ps.psbt_ins[0].sigs = {sec0: take[sec0]}
+                raw = outcome(ps.serialize)
+                if raw[0] != "ok":
+                    continue
+                got = outcome(PSBT.parse, io.BytesIO(raw[1]), "testnet")
+                carried = got[0] != "ok" or bool(got[1].psbt_ins[0].sigs)
+                if variant == "invalid" and got[0] == "ok" and not carried:
+                    continue            # the serialiser dropped the partial signature of a finalised input: nothing invalid was loaded
+                cases.append({"id": "%s.finsig.%s" % (tag, variant), "kind": "load", "bytes": B(raw[1]), "expect": "bad-partial-sig" if variant == "invalid" else "valid",
+                              "accepted": got[0] == "ok", "label": "finalised-input-with-%s-partial-signature" % variant})
     # a partial signature that is valid for ANOTHER input of the same transaction (address reuse: same keys, same script) does not
     # verify where it was put: loading must fail in both directions
     if nin >= 2:
